@@ -29,7 +29,7 @@ def FLOORS(tier):
          "solve_bruteforce-calls": 250 if q else 8000, "solve_bruteforce-all_solutions-calls": 60 if q else 2500, "SetCover:log_trick=True": 10, "SetCover:log_trick=False": 10,
          "JobSequencing:log_trick=True": 10, "JobSequencing:log_trick=False": 10, "weights:default": 100,
          "weights:just-above-threshold": 100, "spin-input-decoded": 300, "SetCover:zero-weight-subset": 7,
-         "JobSequencing:dict-names:int": 4, "NumberPartitioning:large-integers": 7,
+         "JobSequencing:dict-names:int": 4, "NumberPartitioning:large-integers": 7, "BILP:numpy-inputs": 10, "solve_bruteforce:positional-weights": 10,
          "VertexCover:duplicate-orientation-or-self-loop": 6, "SetCover:star-overlap": 6}
     for c in CLASSES:
         f["class:" + c] = 30 if q else 1000
@@ -265,7 +265,13 @@ def do_BILP(ctx, rng, w, bad, call):
     xs = [rng.randint(0, 1) for _ in range(N)]
     b = [sum(S[j][i] * xs[i] for i in range(N)) for j in range(m_)]
     w.update(c=c, S=S, b=b)
-    p = call("init", L.problems.BILP, c, S, b)
+    as_arrays = rng.random() < 0.4
+    if as_arrays:
+        ca_, Sa_, ba_ = np.array(c), np.array(S), np.array(b)
+        p = call("init", L.problems.BILP, ca_, Sa_, ba_)
+        ctx.cat("BILP:numpy-inputs")
+    else:
+        p = call("init", L.problems.BILP, c, S, b)
     feasset = [x for x in itertools.product((0, 1), repeat=N) if all(sum(S[j][i] * x[i] for i in range(N)) == b[j] for j in range(m_))]
     best = min(sum(ci * xi for ci, xi in zip(c, x)) for x in feasset)
     if p.num_binary_variables != N:
@@ -280,8 +286,21 @@ def do_BILP(ctx, rng, w, bad, call):
             got = call("is_solution_valid", p.is_solution_valid, arg, spin=sp) if sp else call("is_solution_valid", p.is_solution_valid, arg)
             if bool(got) != (tuple(x) in feasset):
                 bad("is_solution_valid-disagrees", "is_solution_valid(%r)=%r" % (arg, got))
+    if as_arrays:
+        # the caller goes on using its arrays; the instance keeps describing the problem it was built for
+        ca_[:] = 7
+        Sa_[:] = 0
+        ba_[:] = 1
+        for x in itertools.product((0, 1), repeat=N):
+            got = call("is_solution_valid", p.is_solution_valid, list(x))
+            if bool(got) != (tuple(x) in feasset):
+                bad("instance-follows-the-callers-arrays", "after the caller edited the arrays it built the instance from, is_solution_valid(%r)=%r" % (x, got))
     ctx.count("solve_bruteforce-calls")
-    s = call("solve_bruteforce", p.solve_bruteforce, A=thr + 1, B=B)
+    if rng.random() < 0.5:
+        s = call("solve_bruteforce", p.solve_bruteforce, A=thr + 1, B=B)
+    else:
+        s = call("solve_bruteforce", p.solve_bruteforce, thr + 1, B)        # the same weights spelled positionally
+        ctx.cat("solve_bruteforce:positional-weights")
     if tuple(int(v) for v in s) not in feasset or float(np.dot(c, s)) != best:
         bad("solve_bruteforce-not-optimal", "solve_bruteforce() = %r, optimum %r" % (s, best))
     alls = call("solve_bruteforce", p.solve_bruteforce, A=thr + 1, B=B, all_solutions=True)
